@@ -275,8 +275,30 @@ func c30GenTopology(t *rapid.T, p *c30PoolT) []c30Spec {
 		}
 		if s.Role == "writer" {
 			s.WriterSt = rapid.SampledFrom([]string{"primary", "standby", ""}).Draw(t, "writerState")
+		} else if s.Router && rapid.IntRange(0, 3).Draw(t, "strayWriterState") == 0 {
+			// a promotion stamped on a registry entry that is not (or no longer) a writer:
+			// Coordinator.onWriterPromoted sets the state on whatever entry carries the id
+			s.WriterSt = rapid.SampledFrom([]string{"primary", "primary", "standby"}).Draw(t, "strayWriterStateValue")
 		}
 		specs[i] = s
+	}
+	// Divergent membership (directed): A cannot serve the kind and holds a stale view of B
+	// ("B serves it"), B cannot serve it either and does not know A at all (A not yet
+	// applied on B, or evicted as dead), B knows a really capable C. A request entering at
+	// A reaches B already marked; B must answer an error, never forward it on to C.
+	divergent := ""
+	if n >= 3 && rapid.IntRange(0, 5).Draw(t, "divergentMembership") == 0 {
+		divergent = rapid.SampledFrom([]string{"write", "write", "query"}).Draw(t, "divergentKind")
+		for i := 0; i < 3; i++ {
+			specs[i].Router, specs[i].Up, specs[i].WriterSt = true, true, ""
+		}
+		if divergent == "write" {
+			specs[0].Role = rapid.SampledFrom([]string{"reader", "compactor"}).Draw(t, "divA")
+			specs[1].Role = rapid.SampledFrom([]string{"reader", "compactor"}).Draw(t, "divB")
+			specs[2].Role = "writer"
+		} else {
+			specs[0].Role, specs[1].Role, specs[2].Role = "compactor", "compactor", "reader"
+		}
 	}
 	states := []string{"healthy", "healthy", "healthy", "healthy", "healthy", "healthy", "healthy", "healthy", "unhealthy", "dead", "unknown", "joining"}
 	for i := range specs {
@@ -294,11 +316,25 @@ func c30GenTopology(t *rapid.T, p *c30PoolT) []c30Spec {
 				if v.Role == "writer" {
 					v.WriterSt = rapid.SampledFrom([]string{"primary", "standby", ""}).Draw(t, "staleWriterState")
 				} else {
-					v.WriterSt = ""
+					// the role in this view changed, the writer state stamped earlier may linger
+					v.WriterSt = rapid.SampledFrom([]string{"", "", "primary", "standby"}).Draw(t, "lingeringWriterState")
 				}
+			}
+			if rapid.IntRange(0, 11).Draw(t, "unknownPeer") == 0 {
+				continue // membership views diverge: this node has not (or no longer) registered that peer
 			}
 			specs[i].View[specs[j].Node] = v
 		}
+	}
+	if divergent != "" {
+		serving := map[string]string{"write": "writer", "query": "reader"}[divergent]
+		a, b, c := specs[0].Node, specs[1].Node, specs[2].Node
+		specs[0].View[b] = c30View{Role: serving, State: "healthy", WriterSt: map[string]string{"write": "primary", "query": ""}[divergent]}
+		specs[0].View[c] = c30View{Role: specs[2].Role, State: "unhealthy"}
+		delete(specs[1].View, a)
+		specs[1].View[c] = c30View{Role: specs[2].Role, State: "healthy"}
+		specs[2].View[a] = c30View{Role: specs[0].Role, State: "healthy"}
+		specs[2].View[b] = c30View{Role: specs[1].Role, State: "healthy"}
 	}
 	return specs
 }
@@ -661,9 +697,18 @@ func TestVerifC30_Routing(t *testing.T) {
 			incapable := !c30Can(spec[r.Entry].Role, r.isWrite)
 			if incapable {
 				verifkit.Class("entry-incapable")
+				for _, v := range spec[r.Entry].View {
+					if r.isWrite && v.Role != "writer" && v.WriterSt == "primary" && v.State == "healthy" {
+						verifkit.Class("write-at-incapable-entry-with-nonwriter-primary-in-view")
+						break
+					}
+				}
 			}
 			if len(out.Inbound) == 2 && !c30Can(spec[out.Inbound[1].Node].Role, r.isWrite) {
 				verifkit.Class("forwarded-to-stale-incapable-peer")
+				if _, known := spec[out.Inbound[1].Node].View[r.Entry]; !known {
+					verifkit.Class("forwarded-to-incapable-peer-that-does-not-know-the-forwarder")
+				}
 			}
 			if r.spoofed() {
 				verifkit.Class("marker-spoofed")
